@@ -51,16 +51,23 @@ def build(d):
     if k == "I":
         return pba.I(d[1], d[2])
     if k == "N":
-        return {"int": int, "float": float, "np": np.float64}[d[2]](d[1])
+        return {"int": int, "float": float, "np": np.float64, "npint": np.int64}[d[2]](d[1])
     if k == "P":
         return pbx.stair(unrle(d[1]), unrle(d[2]))
+    if k == "Pi":       # integer-dtype p-box built from Python int lists
+        return pbx.Staircase()(left=[int(v) for v in unrle(d[1])], right=[int(v) for v in unrle(d[2])])
     if k == "L":
         return getattr(pba, d[1])(*d[2])
     if k == "D":
         from pyuncertainnumber.pba.distributions import Distribution
-        return Distribution(d[1], tuple(d[2]))
+        return Distribution(d[1], list(d[2]) if (len(d) > 3 and d[3] == "list") else tuple(d[2]))
     if k == "S":
-        return pba.DempsterShafer(d[1], d[2])
+        style = d[3] if len(d) > 3 else "lists"
+        if style == "ivec":         # one vector Interval
+            return pba.DempsterShafer(pba.I([a for a, _ in d[1]], [b for _, b in d[1]]), d[2])
+        if style == "iobjs":        # a list of scalar Interval objects
+            return pba.DempsterShafer([pba.I(a, b) for a, b in d[1]], d[2])
+        return pba.DempsterShafer([list(iv) for iv in d[1]], list(d[2]))
     if k == "X":
         return float(d[1])
     if k == "O":
@@ -76,7 +83,7 @@ def bounds_of(d, obj):
         return [float(d[1])] * N, [float(d[2])] * N
     if k == "N":
         return [float(d[1])] * N, [float(d[1])] * N
-    if k in ("P", "L"):
+    if k in ("P", "L", "Pi"):
         return [float(v) for v in obj.left], [float(v) for v in obj.right]
     if k in ("D", "S"):
         p = obj.to_pbox()
@@ -119,6 +126,48 @@ def call(fn, *a):
             return canon(fn(*a))
     except BaseException as e:  # noqa
         return ("err", core.err_kind(e))
+
+
+def call_obj(fn, *a):
+    """(real result object or None, canonical value)"""
+    try:
+        with warnings.catch_warnings():
+            warnings.simplefilter("ignore")
+            r = fn(*a)
+            return r, canon(r)
+    except BaseException as e:  # noqa
+        return None, ("err", core.err_kind(e))
+
+
+def snap(d, obj):
+    """what an operand IS, read from the object's own attributes (to verify that calls leave operands unchanged)"""
+    k = d[0]
+    if k == "I":
+        return (float(obj.lo), float(obj.hi))
+    if k in ("P", "L", "Pi"):
+        return (tuple(float(v) for v in obj.left), tuple(float(v) for v in obj.right))
+    if k == "S":
+        return (tuple(float(v) for v in np.ravel(obj.intervals.lo)), tuple(float(v) for v in np.ravel(obj.intervals.hi)),
+                tuple(float(v) for v in np.ravel(obj.masses)))
+    if k == "D":
+        return (obj.dist_family, tuple(float(v) for v in obj.dist_params))
+    if k == "N":
+        return float(obj)
+    return None
+
+
+def ds_conversion_off(d, b):
+    """independent sanity check of a converted DS structure (distinct focal endpoints): the number of steps sitting on
+    focal element k's endpoints is its mass * 200 up to discretisation (+-2 steps).  Returns a description or None"""
+    los, his = [iv[0] for iv in d[1]], [iv[1] for iv in d[1]]
+    if len(set(los)) != len(los) or len(set(his)) != len(his):
+        return None
+    for (lo, hi), m in zip(d[1], d[2]):
+        nl = sum(1 for v in b[0] if v == lo)
+        nr = sum(1 for v in b[1] if v == hi)
+        if abs(nl - m * N) > 2 or abs(nr - m * N) > 2:
+            return f"focal element [{lo}, {hi}] with mass {m} occupies {nl} left / {nr} right steps of {N}"
+    return None
 
 
 def call_in(item, cont):
@@ -364,6 +413,7 @@ def gen_families(ctx):
         ops = [i1, i2, third]
         rng.shuffle(ops)
         fams.append(("near-equal", ops))
+    fams.extend(seq_families(ctx))
     # malformed: empty family, foreign objects, non-finite numbers
     fams.append(("malformed", []))
     for bad in (["O", "str"], ["O", "list"], ["O", "ndarray"], ["O", "none"], ["X", "nan"], ["X", "inf"]):
@@ -372,6 +422,78 @@ def gen_families(ctx):
         fams.append(("malformed", [bad, ["P", [[0, 200]], [[2, 200]]], ["N", 1, "int"]]))
     fams.append(("malformed", [["O", "str"], ["X", "nan"]]))
     fams.append(("malformed", [["X", "nan"], ["O", "str"]]))
+    return fams
+
+
+def rand_masses(rng, m):
+    w = [rng.choice([1, 1, 2, 3, 5, 8]) for _ in range(m)]
+    t = sum(w)
+    ms = [round(x / t, 2) for x in w[:-1]]
+    return ms + [round(1 - sum(ms), 2)]
+
+
+def seq_families(ctx):
+    """consecutive calls that bind the same numbers differently (operands are built immediately before each call and dropped
+    after it, so object addresses are reused): same focal elements / different masses, same family / different parameter,
+    same endpoint / different other endpoint, same value / different number type, DS structures given as lists, as one vector
+    Interval, as a list of Interval objects; integer-dtype p-boxes; tiny, thin and huge operands"""
+    rng = ctx.rng
+    F = [[1, 2], [3, 5], [4, 6]]
+    fams = [
+        ("seq", [["S", F, [.5, .3, .2]], ["I", 3.5, 4]]),
+        ("seq", [["S", F, [.1, .1, .8]], ["I", 3.5, 4]]),
+        ("seq", [["S", F, [.1, .1, .8]]]),
+        ("seq", [["S", F, [.2, .6, .2]], ["I", 0, 5.5]]),
+        ("seq", [["S", F, [.5, .3, .2], "ivec"], ["I", 0, 5.5]]),
+        ("seq", [["S", F, [.1, .8, .1], "iobjs"], ["N", 4, "int"]]),
+        ("seq", [["S", F[::-1], [.2, .3, .5]], ["I", 3.5, 4]]),
+        ("seq", [["S", F, [.8, .1, .1]], ["S", F, [.1, .1, .8]]]),
+        ("seq", [["D", "gaussian", [0, 1]], ["I", 0, 1]]),
+        ("seq", [["D", "gaussian", [0, 2]], ["I", 0, 1]]),
+        ("seq", [["D", "gaussian", [0, 1], "list"], ["I", 0, 1]]),
+        ("seq", [["D", "gaussian", [1, 1]], ["L", "normal", [0, 1]]]),
+        ("seq", [["D", "uniform", [0, 2]]]),
+        ("seq", [["D", "uniform", [0, 3]]]),
+        ("seq", [["L", "uniform", [[0, 1], [2, 3]]], ["N", 1.5, "float"]]),
+        ("seq", [["L", "uniform", [[0, 1], [2, 4]]], ["N", 1.5, "float"]]),
+        ("seq", [["L", "min_max", [2, 5]], ["N", 3, "int"]]),
+        ("seq", [["L", "min_max", [2, 6]], ["N", 3, "npint"]]),
+        ("seq", [["L", "min_max_mean", [0, 4, 1]], ["I", 1, 2]]),
+        ("seq", [["L", "min_max_mean", [0, 4, 3]], ["I", 1, 2]]),
+        ("seq", [["I", 1, 3], ["N", 2, "int"]]),
+        ("seq", [["I", 1, 4], ["N", 2, "npint"]]),
+        ("seq", [["I", 0, 3], ["N", 2.0, "np"]]),
+        ("seq", [["Pi", [[0, 100], [1, 100]], [[1, 100], [2, 100]]], ["I", 0, 1]]),
+        ("seq", [["Pi", [[0, 100], [1, 100]], [[1, 100], [3, 100]]], ["I", 0, 1]]),
+        ("seq", [["Pi", [[0, 100], [1, 100]], [[1, 100], [2, 100]]], ["Pi", [[1, 200]], [[1, 50], [4, 150]]], ["L", "min_max", [0, 2]]]),
+        ("seq", [["Pi", [[2, 200]], [[5, 200]]], ["L", "min_max", [2, 5]], ["I", 2, 5]]),
+    ]
+    for _ in range(ctx.scale(10, 120)):
+        m = rng.choice([2, 3, 4])
+        los = sorted(rng.sample(range(-6, 7), m))
+        foc = [[a, a + rng.choice([1, 2, 3]) + i] for i, a in enumerate(los)]
+        style = rng.choice(["lists", "lists", "ivec", "iobjs"])
+        partner = rng.choice([["I", los[0], los[-1] + 1], ["N", los[1], "int"], ["I", -10, 20], None])
+        for _ in range(3):
+            ops = [["S", foc, rand_masses(rng, m), style]] + ([partner] if partner else [])
+            rng.shuffle(ops)
+            fams.append(("seq", ops))
+    tiny = [[1e-9, 100], [4e-9, 100]]
+    fams += [
+        ("extreme", [["I", 2e-9, 8e-9], ["N", 5e-9, "float"]]),
+        ("extreme", [["I", 2e-9, 8e-9], ["I", 3e-9, 9e-9], ["P", tiny, [[5e-9, 100], [7e-9, 100]]]]),
+        ("extreme", [["I", 2e-9, 8e-9], ["N", 9e-9, "float"]]),
+        ("extreme", [["N", 1e-20, "float"], ["N", 2.0 ** -60, "np"], ["I", 0, 1e-20]]),
+        ("extreme", [["N", 1e-20, "float"], ["N", 0, "int"]]),
+        ("extreme", [["N", 1e-20, "float"], ["I", 0.0, 2e-20], ["P", [[0.0, 200]], [[1e-20, 100], [3e-20, 100]]]]),
+        ("extreme", [["N", 1.380649e-23, "float"], ["I", 0.0, 1.0], ["N", 1e18, "float"]]),
+        ("extreme", [["N", 1e18, "float"], ["I", 1e18, 1e18 + 256], ["N", 1e18 + 128, "np"]]),
+        ("extreme", [["I", 1.0, 1.0 + 1e-9], ["N", 1.0 + 5e-10, "float"]]),
+        ("extreme", [["I", 1.0, 1.0 + 1e-9], ["N", 1.0 + 2e-9, "float"]]),
+        ("extreme", [["I", 1.0, 1.0 + 1e-9], ["I", 1.0 + 1e-9, 1.0 + 3e-9], ["I", 1.0 - 1e-9, 1.0 + 1e-9]]),
+        ("extreme", [["P", [[5.0, 200]], [[5.0 + 1e-8, 200]]], ["P", [[5.0 + 2e-8, 200]], [[5.0 + 3e-8, 200]]]]),
+        ("extreme", [["P", [[5.0, 200]], [[5.0 + 1e-8, 200]]], ["P", [[5.0 + 5e-9, 200]], [[5.0 + 3e-8, 200]]], ["N", 5.0 + 7e-9, "float"]]),
+    ]
     return fams
 
 
@@ -429,7 +551,9 @@ def run(ctx: core.Check):
             n5 += 1
         ptok = ";".join(".".join(map(str, p)) for p in perms) if perms else "-"
         toks = " ".join(wire_op(d, b) for d, b in zip(ops, bnds))
-        built.append((stream, ops, objs, bnds, perms))
+        fresh = stream in ("seq", "extreme")
+        built.append((stream, ops, None if fresh else objs, bnds, perms))
+        del objs
         reqs.append(f"envelope {N} {ptok} {toks}".rstrip())
         reqs.append(f"imposition {N} {ptok} {toks}".rstrip())
     replies = core.model_batch("C11", reqs)
@@ -439,8 +563,30 @@ def run(ctx: core.Check):
         extra_reqs.append(req)
         extra_meta.append(meta)
 
+    kept = []        # (family index, call, REAL result object, canonical value when produced) — re-read later
+    first = {}       # (family index, call) -> canonical first result, for the re-evaluation pass
+    snaps0 = {}
+
+    def recheck_kept(upto=None):
+        for fj, wh, obj, c0 in kept[-(upto or len(kept)):]:
+            try:
+                c1 = canon(obj)
+            except BaseException as e:  # noqa
+                c1 = ("err", core.err_kind(e))
+            ctx.count(("kept", fj, wh, len(kept)), False, None)
+            if c1 != c0:
+                st, ops_ = built[fj][0], built[fj][1]
+                ctx.fail({"k": len(ops_), "kinds": kinds(ops_), "stream": st.split("-")[0], "call": wh, "check": "result-changed-later"},
+                         {"stream": st, "operands": ops_, "call": wh, "when_produced": js(c0), "re_read": js(c1)},
+                         f"a result of {wh} kept alive changed its value after later, unrelated calls")
+
     for fi, (stream, ops, objs, bnds, perms) in enumerate(built):
         k = len(ops)
+        if objs is None:
+            objs = [build(d) for d in ops]      # sequence streams: operands are created right before the calls and dropped after
+        snap_before = [snap(d, o) for d, o in zip(ops, objs)]
+        if fi % 100 == 99:
+            recheck_kept(120)
         valid = all(b is not None for b in bnds) and k >= 1
         nontriv = k >= 2 and any(json.dumps(o) != json.dumps(ops[0]) for o in ops[1:])
         feat0 = {"k": k, "kinds": kinds(ops), "stream": stream.split("-")[0]}
@@ -451,7 +597,13 @@ def run(ctx: core.Check):
             m0 = parse_res(mres[0])
             results = []
             for oi, order in enumerate([list(range(k))] + perms):
-                impl = call(fn, *[objs[i] for i in order])
+                if oi == 0:
+                    robj, impl = call_obj(fn, *objs)
+                    first[(fi, which)] = impl
+                    if robj is not None and (len(kept) < 4000):
+                        kept.append((fi, which, robj, impl))
+                else:
+                    impl = call(fn, *[objs[i] for i in order])
                 results.append(impl)
                 ctx.count((which, json.dumps(ops), tuple(order)), nontriv, stream)
                 mod = m0 if (oi == 0 or mres[oi] == "=") else parse_res(mres[oi])
@@ -604,7 +756,40 @@ def run(ctx: core.Check):
             # foreign item for `in` (no `.lo`): error kind only.  ndarray items are decided by numpy broadcasting: not modelled
             cont = pbx.stair([0.0] * N, [2.0] * N)
             extra(f"contains {ql([0.0] * N)} {ql([2.0] * N)} A", "in-foreign", fi, ops[0], call_in(objs[0], cont), None, None)
+        # ---- operands are left as they were ------------------------------------------------------------
+        snap_after = [snap(d, o) for d, o in zip(ops, objs)]
+        if snap_after != snap_before:
+            j = next(i for i, (a, b) in enumerate(zip(snap_before, snap_after)) if a != b)
+            ctx.fail({**feat0, "call": "any", "check": "operand-changed"}, {**desc, "operand": ops[j]},
+                     f"operand {j} ({ops[j][0]}) was modified by envelope / imposition / `in`")
+        # ---- the conversion of a DS structure honours its masses (independent count of steps) --------------------
+        if valid:
+            for d, b in zip(ops, bnds):
+                if d[0] == "S":
+                    off = ds_conversion_off(d, b)
+                    if off:
+                        ctx.fail({**feat0, "call": "convert", "check": "ds-masses"}, {**desc, "operand": d}, "converted DS structure: " + off)
         ctx.sample({"stream": stream, "operands": [o if o[0] not in ("P",) else ["P", o[1][:3], o[2][:3]] for o in ops]})
+
+    # ---- state carried between calls: re-read every kept result, re-evaluate a sample after all the unrelated calls --------
+    recheck_kept()
+    again = [fi for fi, b in enumerate(built) if b[0] in ("seq", "extreme", "near-equal")]
+    others = [fi for fi, b in enumerate(built) if b[0] not in ("seq", "extreme", "near-equal", "malformed")]
+    again += others[:: max(1, len(others) // ctx.scale(60, 600))]
+    for rnd, fresh_objs in ((0, False), (1, True)):
+        for fi in (again if rnd == 0 else list(reversed(again))):
+            stream, ops, objs, bnds, perms = built[fi]
+            if objs is None or fresh_objs:
+                objs = [build(d) for d in ops]
+            for which, fn in (("envelope", envelope), ("imposition", imposition)):
+                r = call(fn, *objs)
+                ctx.count(("again", rnd, which, json.dumps(ops)), False, "re-evaluated")
+                if r != first[(fi, which)]:
+                    ctx.fail({"k": len(ops), "kinds": kinds(ops), "stream": stream.split("-")[0], "call": which, "check": "not-reproducible"},
+                             {"stream": stream, "operands": ops, "call": which, "first": js(first[(fi, which)]), "again": js(r),
+                              "fresh_operands": fresh_objs},
+                             f"{which} of the same operands gives a different result when evaluated again after unrelated calls"
+                             + (" (operands rebuilt)" if fresh_objs else " (same operand objects)"))
 
     replies2 = core.model_batch("C11", extra_reqs)
     for rq, (what, fi, d, impl, must_true, must_false), rep in zip(extra_reqs, extra_meta, replies2):
